@@ -63,7 +63,6 @@ ENTRIES = [
     ("abf.outputFreq", ABFH, ["abf"], "outputFreq", 3),
     ("harmonic.targetNumSteps", HARMMOV, ["harmonic"], "targetNumSteps", 3),
     ("harmonic.targetNumStages", HARMSTG, ["harmonic"], "targetNumStages", 3),
-    ("harmonic.targetEquilSteps", HARMSTG, ["harmonic"], "targetEquilSteps", 3),
     ("histrestr.width", HRES, ["histogramrestraint"], "width", 3),
     ("histrestr.lowerBoundary", HRES, ["histogramrestraint"], "lowerBoundary", 3),
     ("histrestr.upperBoundary", HRES, ["histogramrestraint"], "upperBoundary", 3),
@@ -88,14 +87,14 @@ ZS = [(1.0, 1.5, 2.0, 0.5), (1.25, 1.5, 2.5, 0.75), (2.75, 0.5, 2.0, 1.0), (3.5,
       (4.5, 2.0, 3.0, 0.25), (-0.5, 2.5, 3.5, 1.5), (1.75, 3.0, 0.5, 2.0), (2.0, 3.5, 1.5, 0.5)]
 
 
-def scenario(conf, restartfreq=3, nsteps=8, base=True, log=None, temperature=300):
+def scenario(conf, restartfreq=3, nsteps=8, base=True, log=None, temperature=300, base2=False):
     S = ["natoms 4", "prefix out", "restartfreq %d" % restartfreq, "temperature %g" % temperature, "new"]
     if log:
         S.append("log " + log)
     for a in range(4):
         S.append("pos %d %g %g %g" % (a + 1, 0.25 * a, 0.5 * a, ZS[0][a]))
     if base:
-        S += ["config EOF", BASE + "EOF", "objs"]
+        S += ["config EOF", BASE + (BASE2 if base2 else "") + "EOF", "objs"]
     if conf is not None:
         S += ["config EOF", conf.rstrip("\n"), "EOF", "objs"]
     for k in range(nsteps):
@@ -106,3 +105,68 @@ def scenario(conf, restartfreq=3, nsteps=8, base=True, log=None, temperature=300
             S.append("save text mid.state")
     S += ["postrun", "objs"]
     return "\n".join(S) + "\n"
+
+
+# ------------------------------------------------------------------------------------------------
+# how each entry is presented to the extracted model (props/C10/driver.ml): kind, base fields, varied field
+# ------------------------------------------------------------------------------------------------
+_R = {"rof": "3"}
+MODEL = {
+    "module.colvarsTrajFrequency": ("module", dict(_R, engtraj="1"), "traj"),
+    "module.colvarsRestartFrequency": ("module", dict(_R, engtraj="1"), "restart"),
+    "opes.colvarsRestartFrequency": ("opesmod", dict(_R, engtraj="1", tf="1", pace="2"), "restart"),
+    "colvar.timeStepFactor": ("colvar", dict(_R, tsf="2"), "tsf"),
+    "colvar.width": ("cvgrid", dict(lower="0", upper="4", width="0.5"), "width"),
+    "colvar.lowerBoundary": ("cvgrid", dict(lower="0", upper="4", width="0.5"), "lower"),
+    "colvar.upperBoundary": ("cvgrid", dict(lower="0", upper="4", width="0.5"), "upper"),
+    "colvar.runAveStride": ("colvar", dict(_R, runave="on", ralen="3", rastride="1"), "rastride"),
+    "colvar.runAveLength": ("colvar", dict(_R, runave="on", ralen="3", rastride="1"), "ralen"),
+    "colvar.corrFuncStride": ("colvar", dict(_R, corr="on", cflen="2", cfstride="1", cfoff="0"), "cfstride"),
+    "colvar.corrFuncLength": ("colvar", dict(_R, corr="on", cflen="2", cfstride="1", cfoff="0"), "cflen"),
+    "colvar.corrFuncOffset": ("colvar", dict(_R, corr="on", cflen="2", cfstride="1", cfoff="0"), "cfoff"),
+    "coordnum.pairListFrequency": ("coordnum", dict(tol="on", freq="2"), "freq"),
+    "bias.timeStepFactor": ("bias", dict(_R, btsf="2"), "btsf"),
+    "bias.outputFreq": ("bias", dict(_R, outfreq="2"), "outfreq"),
+    "meta.newHillFrequency": ("meta", dict(_R, newhill="2"), "newhill"),
+    "meta.gridsUpdateFrequency": ("meta", dict(_R, newhill="2"), "gridsfreq"),
+    "metanogrid.newHillFrequency": ("meta", dict(_R, newhill="2", usegrids="off"), "newhill"),
+    "abf.fullSamples": ("abf", dict(_R, outfreq="2", full="2"), "full"),
+    "abf.minSamples": ("abf", dict(_R, outfreq="2", full="2"), "min"),
+    "abf.historyFreq": ("abf", dict(_R, outfreq="2", full="2", hist="2"), "hist"),
+    "abf.outputFreq": ("abf", dict(_R, outfreq="2", full="2", hist="2"), "outfreq"),
+    "harmonic.targetNumSteps": ("moving", dict(_R, moving="on", nsteps="4"), "nsteps"),
+    "harmonic.targetNumStages": ("moving", dict(_R, moving="on", nsteps="2", nstages="2"), "nstages"),
+    "histrestr.width": ("histrestr", dict(lower="0.0", upper="8.0", width="1.0"), "width"),
+    "histrestr.lowerBoundary": ("histrestr", dict(lower="0.0", upper="8.0", width="1.0"), "lower"),
+    "histrestr.upperBoundary": ("histrestr", dict(lower="0.0", upper="8.0", width="1.0"), "upper"),
+    "grid.width": ("gridkw", dict(lower="0", upper="4", width="0.5"), "width"),
+    "grid.lowerBoundary": ("gridkw", dict(lower="0", upper="4", width="0.5"), "lower"),
+    "grid.upperBoundary": ("gridkw", dict(lower="0", upper="4", width="0.5"), "upper"),
+    "opes.newHillFrequency": ("opes", dict(_R, tf="1", pace="2", rof2="3"), "pace"),
+    "opesad.newHillFrequency": ("opes", dict(_R, tf="1", pace="2", rof2="3", adaptive="on", adstride="4"), "pace"),
+    "opesad.adaptiveSigmaStride": ("opes", dict(_R, tf="1", pace="2", rof2="3", adaptive="on", adstride="4"), "adstride"),
+    "opes.pmfHistoryFrequency": ("opes", dict(_R, tf="1", pace="2", rof2="3", pmf="on", pmfhist="2"), "pmfhist"),
+    "opes.printTrajectoryFrequency": ("opes", dict(_R, tf="1", pace="2", rof2="3"), "trajfreq"),
+}
+ENTRIES = [e for e in ENTRIES if e[0] in MODEL]
+BY_ID = dict((e[0], e) for e in ENTRIES)
+
+# (entry id -> value classes) whose outcome depends on how much memory the host grants: skipped as boundary-ambiguous
+MEMORY_SENSITIVE = {}
+
+# second base variable with a grid (atom 3), used by the roll-back scenarios
+BASE2 = cv("g0", 3, GRIDCV, "    oneSiteTotalForce on\n")
+
+BASE104 = ("colvar {\n  name zz0\n  distanceZ {\n    main { atomNumbers 1 }\n    ref { dummyAtom (0,0,0) }\n    axis (0,0,1)\n  }\n}\n"
+           "harmonic {\n  name hh0\n  colvars zz0\n  centers 0.0\n  forceConstant 2.0\n}\n")
+
+
+def hist_grid_config(dims):
+    """histogram with a custom grid on len(dims) exact variables (atoms 1..3 reused cyclically)"""
+    names = ["q%d" % i for i in range(len(dims))]
+    s = ""
+    for i, n in enumerate(names):
+        s += cv(n, 1 + i % 3, GRIDCV)
+    s += ("histogram {\n  name h\n  colvars %s\n  outputFreq 2\n  histogramGrid {\n    width %s\n    lowerBoundary %s\n    upperBoundary %s\n  }\n}\n"
+          % (" ".join(names), " ".join(d[2] for d in dims), " ".join(d[0] for d in dims), " ".join(d[1] for d in dims)))
+    return s
